@@ -69,6 +69,7 @@ type CtxRec struct {
 	Module    string   `json:"module"`
 	RResp     string   `json:"rresp"`
 	RState    string   `json:"rstate"`
+	RTgt      int      `json:"rtgt"`
 }
 type QHRec struct {
 	ID int   `json:"id"`
@@ -398,7 +399,7 @@ func (c *Chain) ProjectCtx(ctx sdk.Context) *State {
 			}
 			cid := c.ctxOf(body, "context key", anom)
 			st.Ctx = append(st.Ctx, CtxRec{
-				RResp: c.React[cid][0], RState: c.React[cid][1],
+				RResp: c.React[cid].Resp, RState: c.React[cid].State, RTgt: c.React[cid].Tgt,
 				ID: cid, Svc: r.ServiceName, Provs: provs, Cons: c.Name(r.Consumer),
 				Input: r.Input, Cap: c.amount(r.ServiceFeeCap, "fee cap", anom), Timeout: clip(r.Timeout, "timeout", anom),
 				Super: r.SuperMode, Rep: r.Repeated, Freq: clip(int64(r.RepeatedFrequency), "frequency", anom),
